@@ -202,7 +202,7 @@ impl Prop for C06 {
         true
     }
     fn random_cases(tier: Tier) -> u64 {
-        tier.pick(16_000, 3_000_000)
+        tier.pick(60_000, 3_000_000)
     }
     fn strategy(tier: Tier) -> BoxedStrategy<Case> {
         let max_entries = tier.pick(12usize, 120);
